@@ -53,21 +53,31 @@ def run(ctx):
     if not up:
         raise Broken("no unsegmented path")
     p = up[0]
-    mk = [c for c in p.calls() if (callee_name(c) or "").startswith("std::make_shared")]
-    if len(mk) != 1 or len(mk[0].get("args", [])) != 3:
-        raise Broken("unsegmented path: expected one make_shared<Packet>(type, ptr, size)")
-    a0, a1, a2 = mk[0]["args"]
-    cursor = strip_all_casts(a1).get("decl")
-    sizev = strip_all_casts(a2).get("decl")
-    res.check(getters_in(dec, a0, CH) == {CH + "::getMessageType"} and "p0:data" in depends(dec, a0)[0], "C04-R1", "decode:message-type", mk[0].get("loc"),
-              "message type <- CmpHeader::getMessageType of this frame", "packet message type comes from %s" % sorted(getters_in(dec, a0, CH)))
+    cons = D.constructions(fb, p)
+    if len(cons) != 1:
+        raise Broken("unsegmented path: expected one construction of a Packet from (type, ptr, size), found %d" % len(cons))
+    con = cons[0]
+    mk = [con.site]
+    a0, a1, a2 = con.mk["args"]
+    cursor = strip_all_casts(con.actual(a1)).get("decl")
+    sizev = strip_all_casts(con.actual(a2)).get("decl")
+
+    def from_frame(e):
+        """getters of the frame header that e depends on, and whether it is rooted in this datagram"""
+        g = getters_in(con.fn, e, CH)
+        roots = depends(con.fn, e)[0]
+        rooted = "p0:data" in roots if not con.bind else any("p0:data" in depends(dec, con.bind[d])[0] for d in roots if d in con.bind)
+        return g, rooted
+    g0, r0 = from_frame(a0)
+    res.check(g0 == {CH + "::getMessageType"} and r0, "C04-R1", "decode:message-type", con.mk.get("loc"),
+              "message type <- CmpHeader::getMessageType of this frame", "packet message type comes from %s" % sorted(g0))
     for row in spec["asam_unsegmented"]:
-        cs = [c for c in p.calls(row["setter"])]
-        ok = len(cs) == 1 and getters_in(dec, cs[0]["args"][0], CH) == {row["source"]} and "p0:data" in depends(dec, cs[0]["args"][0])[0] and \
-            facts.flows_unchanged(dec, cs[0]["args"][0], row["source"])
+        cs = con.calls(p, row["setter"])
+        gs, rooted = from_frame(cs[0]["args"][0]) if len(cs) == 1 else (set(), False)
+        ok = len(cs) == 1 and gs == {row["source"]} and rooted and facts.flows_unchanged(con.fn, cs[0]["args"][0], row["source"])
         res.check(ok, "C04-R1", "decode:%s" % row["setter"].split("::")[-1], cs[0].get("loc") if cs else dec.loc,
                   "%s <- %s" % (row["setter"].split("::")[-1], row["source"].split("::")[-1]),
-                  "%s is fed from %s, expected exactly %s" % (row["setter"], sorted(getters_in(dec, cs[0]["args"][0], CH)) if cs else "nothing", row["source"]))
+                  "%s is fed from %s, expected exactly %s" % (row["setter"], sorted(gs) if cs else "nothing", row["source"]))
     # reassembled path
     cp = [q for q in m.body_paths() if D.classify(q) == "continuation-completes"][0]
     for st in ("ASAM::CMP::Packet::setDeviceId", "ASAM::CMP::Packet::setStreamId"):
